@@ -36,7 +36,7 @@ pub fn validator_cfg(cfg: &[(String, String)]) -> String {
 }
 
 pub fn load_dirty() -> HashSet<String> {
-    std::fs::read_to_string("/verif/corpus/c01_dirty.txt").unwrap_or_default().lines().filter(|l| !l.trim().is_empty() && !l.starts_with('#')).map(|l| l.split('\t').next().unwrap_or("").trim().to_string()).collect()
+    std::fs::read_to_string("corpus/c01_dirty.txt").or_else(|_| std::fs::read_to_string("/verif/corpus/c01_dirty.txt")).unwrap_or_default().lines().filter(|l| !l.trim().is_empty() && !l.starts_with('#')).map(|l| l.split('\t').next().unwrap_or("").trim().to_string()).collect()
 }
 
 /// rejected elements that were examined by hand and are genuine defects of the pinned tree: (element, probe id)
@@ -124,6 +124,10 @@ fn excluded(id: &str) -> Option<&'static str> {
     EXCLUDED.iter().find(|(f, _)| *f == fx).map(|(_, p)| *p)
 }
 
+fn all_with_excluded_ids(progs: &[corpus::Program]) -> Vec<Case> {
+    universe(progs)
+}
+
 pub fn run(tier: &str, seed: u64, out: &Path) -> i32 {
     let mut o = Outcome::new("C01", tier, seed);
     let progs = corpus::programs(&["tests/target", "tests/source"]);
@@ -139,6 +143,23 @@ pub fn run(tier: &str, seed: u64, out: &Path) -> i32 {
             if j.verdict == "not-equivalent" || j.verdict == "output-does-not-parse" {
                 println!("{}\t{}\t{}", j.id, j.verdict, show_diff(&j.detail));
             }
+        }
+        return 0;
+    }
+    if tier == "show" {
+        // C01_SHOW=<element id>[;<element id>…]: writes input, output and configuration of the elements to <out>/ and prints the verdicts
+        let want: Vec<String> = std::env::var("C01_SHOW").unwrap_or_default().split(';').map(|s| s.trim().to_string()).filter(|s| !s.is_empty()).collect();
+        let sel: Vec<Case> = all_with_excluded_ids(&progs).into_iter().filter(|c| want.iter().any(|w| *w == c.id)).collect();
+        let jobs1: Vec<Job> = sel.iter().map(|c| Job { src: c.src.clone(), cfg: c.cfg.clone(), file_lines: None }).collect();
+        let r1 = pool::run_jobs(&jobs1, jobs(), Duration::from_secs(30));
+        let js = judge(&sel, Duration::from_secs(30));
+        let _ = std::fs::create_dir_all(out);
+        for (k, c) in sel.iter().enumerate() {
+            let stem = c.id.replace('/', "_").replace('|', "__");
+            let _ = std::fs::write(out.join(format!("{}.in.rs", stem)), &c.src);
+            let _ = std::fs::write(out.join(format!("{}.out.rs", stem)), &r1[k].out);
+            let _ = std::fs::write(out.join(format!("{}.toml", stem)), cfg_text(&c.cfg));
+            println!("{}\t{}\t{}\t[{}]\tstatus={:?} flags={:?}", c.id, js[k].verdict, show_diff(&js[k].detail), validator_cfg(&c.cfg), r1[k].status, r1[k].flags);
         }
         return 0;
     }
@@ -222,6 +243,9 @@ pub fn run(tier: &str, seed: u64, out: &Path) -> i32 {
     if let Some(c) = chosen.last() {
         o.sample(json!({"case": c.id, "config": cfg_text(&c.cfg), "validator_cfg": validator_cfg(&c.cfg), "src_bytes": c.src.len()}));
     }
+    // the mechanism part: the literal rewriters against their Lean model (RF/Model/Literal.lean, RF/Props/C01lit.lean)
+    let mut rng_lit = Rng::new(seed ^ 0xc0111);
+    crate::c01lit::part(&mut o, &mut rng_lit, tier == "thorough");
     o.exhaustive = tier == "thorough";
     o.notes.push("universe as in C02 (fixtures x {base, 7 widths, every option single, 3 name-seeded re-layouts}); a program = one (source, configuration) whose first pass reported nothing; non-trivial = the output differs from the input".into());
     o.finish(out, jobs())
